@@ -191,6 +191,10 @@ func startChild(reportCrashes, upload bool, result *StartResult) {
 	cmd.Env = append(os.Environ(), telemetryChildVar+"=1")
 	if upload {
 		cmd.Env = append(cmd.Env, telemetryUploadVar+"=1")
+	} else {
+		// Do not let a value this process happened to inherit make the
+		// child upload without the token.
+		cmd.Env = append(cmd.Env, telemetryUploadVar+"=")
 	}
 	cmd.Dir = telemetry.Default.LocalDir()
 
